@@ -173,10 +173,7 @@ def _find_first_common_next_vertex_in_edges__impl(
                         # Potential endless recursion situation. Abort.
                         new_es_entry.add(None)
                         continue
-                v_es: list[Edge] = []
-                for e in v_es:
-                    if e.index in g.es:
-                        v_es.append(e)
+                v_es: list[Edge] = list(v.out_edges())
                 if not allow_loop_edges:
                     # Remove edges marked as looping
                     v_es = [e for e in v_es if not any_incoming_edge_is_loop(e.target_vertex)]
